@@ -825,3 +825,22 @@ def stream_randref_nicks(rng):
     return {"version": rng.choice([2, 3]), "options": [], "stmts": stmts,
             "raw": [rng.randint(0, 10 ** 6) for _ in range(60)], "bias": rng.choice(["lo", "hi", "mix", "mix"])}, \
         ["random_reference", "nick", "just_once", "randref_nicks"]
+
+
+def stream_nick_spelled_like_table(rng):
+    """a nickname on a friend / nested template that is spelled like the name of ANOTHER table; both
+    tables are random_reference targets (nickname ordinals and table ids are different namespaces)"""
+    n_b = rng.randint(1, 2)
+    holder = _T("W", None, False, [("w", ["int", 1])], count=["int", rng.randint(2, 3)])
+    inner = _T("C", "B", False, [("tag", ["str", "kid"])], count=rng.choice([None, ["int", 2]]))
+    if rng.random() < 0.5:
+        holder["friends"] = [["obj", inner]]
+    else:
+        holder["fields"].append(["kid", ["nested", inner]])
+    stmts = [["obj", _T("B", None, False, [("n", ["str", "only"])], count=["int", n_b])], ["obj", holder],
+             ["obj", _T("P", None, False, [("r", ["randref", "B"]), ("q", ["randref", "C"])], count=["int", rng.randint(2, 4)])]]
+    if rng.random() < 0.5:
+        stmts[0], stmts[1] = stmts[1], stmts[0]
+    return {"version": rng.choice([2, 3]), "options": [], "stmts": stmts,
+            "raw": [rng.randint(0, 10 ** 6) for _ in range(60)], "bias": rng.choice(["lo", "hi", "mix", "hi"])}, \
+        ["random_reference", "nick", "nick_spelled_like_table"]
